@@ -259,12 +259,20 @@ func (s *scheduler) pickOtherFrom(me *thread) *thread {
 			return a
 		}
 	}
+	var cands []*thread
 	for _, t := range s.threads {
 		if t != me && s.ready(t) {
-			return t
+			cands = append(cands, t)
 		}
 	}
-	return nil
+	if len(cands) == 0 {
+		return nil
+	}
+	if s.symbolic && len(cands) > 1 {
+		// under symbolic scheduling the thread that runs after a finished one is a choice too
+		return cands[s.p.choose(len(cands), "sched")]
+	}
+	return cands[0]
 }
 
 // handTo passes the baton without waiting (used by finishing threads).
